@@ -497,6 +497,24 @@ theorem loop_carried_sound (a r s : List Ty) (hlen : a.length = r.length) :
           M 0 c0 v0 fin scs (elemsMatch_of_conformsAll v0 a hinit) hrun
       exact conformsAll_onnxCarried fin a hfin
 
+/-- The unpatched modules (v19, v21) are sound too: they claim only the element type. -/
+theorem loop_onnx_carried_sound (a r s : List Ty) (hlen : a.length = r.length) :
+    LoopCarriedSound inferLoopOnnx a r s := by
+  intro outs body M c0 v0 fin scs hi hinit _ hElem hrun
+  simp only [inferLoopOnnx, allTyped_map_some] at hi
+  split at hi
+  · simp at hi
+  · rename_i hag
+    simp only [Bool.not_eq_true', Bool.not_eq_false] at hag
+    simp only [Res.ok.injEq] at hi
+    subst hi
+    rw [List.take_left' (onnxCarried_length a)]
+    have hfin : elemsMatch fin a = true :=
+      loopRun_inv (fun vs => elemsMatch vs a = true) body
+        (fun i vs c vs' sc _ hb => elemsMatch_agree vs' a r hag hlen (hElem i vs c vs' sc hb))
+        M 0 c0 v0 fin scs (elemsMatch_of_conformsAll v0 a hinit) hrun
+    exact conformsAll_onnxCarried fin a hfin
+
 /-- While every result refines its argument's declared type, the types prescribed for the body's
     carried arguments are sound: each iteration's carried inputs conform to them (this is the
     invariant behind `loop_carried_sound`, stated for the values a run ends with). -/
